@@ -163,7 +163,7 @@ func prefixWithSpace(c byte) bool {
 	case '\t', '\n', '\f', '\r', ' ':
 		return true
 	}
-	return '0' <= c && c <= '9' || 'a' <= c && c <= 'b' || 'A' <= c && c <= 'B'
+	return '0' <= c && c <= '9' || 'a' <= c && c <= 'f' || 'A' <= c && c <= 'F'
 }
 
 var cssStringEscapes = []string{
